@@ -107,6 +107,7 @@ def run(tier, seed):
     # a known finding that the check exhibits on every run: graph keys are stored on the objects a model is built from, so
     # finalising a second model that shares a Stratification object re-labels what the first one reads
     progs.append(carrier([{"obs": "oracle", "name": "c11_shared_keys"}]))
+    progs.append(carrier([{"obs": "oracle", "name": "c11_caller_objects"}]))
     ex = checklib.explore(progs, keys=KEYS, per_prog_timeout=90.0)
     # other interpreter hash seeds: the same programs and histories in fresh processes; every number must be
     # bit-identical to the PYTHONHASHSEED=0 run (JSON floats are shortest round-trip representations)
